@@ -36,6 +36,12 @@ def repo_corpus():
         mods["file:///ex/" + os.path.basename(f)] = open(f, encoding="utf8").read()
     if "file:///ex/main.oal" in mods:
         out.append({"mods": mods, "main": "file:///ex/main.oal"})
+    # implicit references to atomic schemas (inlined by the emitter) before and after kept components
+    out.append({"mods": {"file:///w/main.oal": "let self_link = /nodes/{ 'id! int } on get -> <{ 'self self_link }>;\n"
+                         "let @node = { 'name str, 'parent self_link, 'r (rec x str), 'q (rec y { 'k [y], 'z (rec w int) }) };\n"
+                         "res self_link;\nres /roots on get -> <[@node]>;\n"}, "main": "file:///w/main.oal"})
+    out.append({"mods": {"file:///w/main.oal": "let @a = { 'p (rec x num) };\nlet @b = { 'q @a, 'r (rec y uri) };\nres /r on get -> <@b> :: <status=404, (rec z bool)>;\n"},
+                "main": "file:///w/main.oal"})
     return out
 
 
